@@ -2,6 +2,7 @@
 from .. import scriptprop
 
 ID = "C12"
+GEN = ["SlicesShapes.lean", "SortShapes.lean"]   # regenerated from the source on every run (tie 4B): kernels / call shapes / function shapes
 RULE = ("exhaustive: every length 0..6 x every spare capacity 0..4 x every valid position x inserted lengths 0..3 / removal lengths (insert, insertslice, remove, removeslice), "
         "the cells behind the logical end are observed (guard suffix), fill/repeat/reverse for every length 0..20, concat/clone with mutation of the result, grow; "
         "plus random lengths to 200 (thorough) and a malformed stream (negative and far-out positions) judged against the model only")
